@@ -394,8 +394,58 @@ func c07(repo string, out *fg.Out) error {
 	if !returnsFull {
 		return fmt.Errorf("tryEnqueueFlush default arm no longer returns flushQueueFull")
 	}
-	// write paths: any non-nil return positioned after the tryEnqueueFlush call?
-	queueFullErrors, onlyNoWal := false, false
+	// write paths, each on its own: is a queue-full drop turned into a non-nil return value, and only
+	// when b.wal == nil?  A `return helper(outcome)` is resolved through the helper's body; a helper call
+	// whose result is discarded reports nothing.
+	noWalCond := func(e ast.Expr) bool {
+		return strings.Contains(strings.Join(strings.Fields(aw.Text(e)), ""), "b.wal==nil")
+	}
+	// errorReturns: does the subtree return a non-nil error (errs), and is every such return under a
+	// `b.wal == nil` condition (noWal)?
+	var errorReturns func(root ast.Node, from token.Pos, depth int) (bool, bool)
+	errorReturns = func(root ast.Node, from token.Pos, depth int) (bool, bool) {
+		errs, allNoWal := false, true
+		var stack []ast.Node
+		ast.Inspect(root, func(n ast.Node) bool {
+			if n == nil {
+				stack = stack[:len(stack)-1]
+				return true
+			}
+			stack = append(stack, n)
+			r, ok := n.(*ast.ReturnStmt)
+			if !ok || r.Pos() < from || len(r.Results) != 1 {
+				return true
+			}
+			if id, ok := r.Results[0].(*ast.Ident); ok && id.Name == "nil" {
+				return true
+			}
+			guarded := false
+			for _, a := range stack {
+				if is, ok := a.(*ast.IfStmt); ok && noWalCond(is.Cond) {
+					guarded = true
+				}
+			}
+			if c, ok := r.Results[0].(*ast.CallExpr); ok && depth < 2 {
+				if h := aw.FuncDecl("ArrowBuffer", fg.CalleeName(c)); h != nil {
+					he, hn := errorReturns(h.Body, 0, depth+1)
+					if he {
+						errs = true
+						if !guarded && !hn {
+							allNoWal = false
+						}
+					}
+					return true
+				}
+			}
+			errs = true
+			if !guarded {
+				allNoWal = false
+			}
+			return true
+		})
+		return errs, errs && allNoWal
+	}
+	pathFacts := map[string][2]bool{}
 	for _, name := range []string{"writeColumnarInternal", "writeTypedColumnarRaw"} {
 		d, err := fn(name)
 		if err != nil {
@@ -405,33 +455,19 @@ func c07(repo string, out *fg.Out) error {
 		if len(calls) != 1 {
 			return fmt.Errorf("%s: expected one tryEnqueueFlush call", name)
 		}
-		errs, noWal := false, false
-		var stack []ast.Node
-		ast.Inspect(d, func(n ast.Node) bool {
-			if n == nil {
-				stack = stack[:len(stack)-1]
-				return true
-			}
-			stack = append(stack, n)
-			r, ok := n.(*ast.ReturnStmt)
-			if !ok || r.Pos() < calls[0].Pos() || len(r.Results) != 1 {
-				return true
-			}
-			if id, ok := r.Results[0].(*ast.Ident); ok && id.Name == "nil" {
-				return true
-			}
-			errs = true
-			for _, a := range stack {
-				if is, ok := a.(*ast.IfStmt); ok && strings.Contains(strings.Join(strings.Fields(aw.Text(is.Cond)), ""), "b.wal==nil") {
-					noWal = true
-				}
-			}
-			return true
-		})
-		if name == "writeColumnarInternal" {
-			queueFullErrors, onlyNoWal = errs, noWal
-		} else if errs != queueFullErrors || noWal != onlyNoWal {
-			return fmt.Errorf("the two write paths disagree on what follows a queue-full drop")
+		e, n := errorReturns(d, calls[0].Pos(), 0)
+		pathFacts[name] = [2]bool{e, n}
+	}
+	queueFullErrors, onlyNoWal := pathFacts["writeColumnarInternal"][0], pathFacts["writeColumnarInternal"][1]
+	typedErrors, typedOnlyNoWal := pathFacts["writeTypedColumnarRaw"][0], pathFacts["writeTypedColumnarRaw"][1]
+	// the public entry points of the typed path end in writeTypedColumnarRaw and pass its error on
+	for _, pr := range [][2]string{{"WriteTypedColumnarDirect", "writeTypedColumnarInternal"}, {"writeTypedColumnarInternal", "writeTypedColumnarRaw"}} {
+		d, err := fn(pr[0])
+		if err != nil {
+			return err
+		}
+		if !strings.Contains(strings.Join(strings.Fields(aw.Text(d.Body)), ""), "returnb."+pr[1]+"(") {
+			return fmt.Errorf("%s no longer returns the result of %s", pr[0], pr[1])
 		}
 	}
 	fra, err := fn("flushRecordsAsync")
@@ -442,29 +478,63 @@ func c07(repo string, out *fg.Out) error {
 	if err != nil {
 		return err
 	}
-	failBranchMarks := func(d *ast.FuncDecl, callee string) (bool, error) {
-		found, marks := false, false
+	// failBranchMarks: (the failure branch calls markFlushFailure, it also does so when the flush context is
+	// done) — a statement before the call that tests ctx.Err()/ctx.Done()/context.DeadlineExceeded/Canceled
+	// and returns makes the site conditional on a live context.
+	failBranchMarks := func(d *ast.FuncDecl, callee string) (bool, bool, error) {
+		found, marks, onTimeout := false, false, false
 		ast.Inspect(d, func(n ast.Node) bool {
 			is, ok := n.(*ast.IfStmt)
 			if !ok || is.Init == nil {
 				return true
 			}
-			if contains(aw, is.Init, callee) {
-				found = true
-				marks = contains(aw, is.Body, "markFlushFailure")
+			if !contains(aw, is.Init, callee) {
+				return true
 			}
+			found = true
+			mcs := fg.CallsNamed(is.Body, "markFlushFailure")
+			marks = len(mcs) > 0
+			onTimeout = marks
+			ast.Inspect(is.Body, func(m ast.Node) bool {
+				g, ok := m.(*ast.IfStmt)
+				if !ok {
+					return true
+				}
+				ct := strings.Join(strings.Fields(aw.Text(g.Cond)), "")
+				ctxCond := strings.Contains(ct, "ctx.Err()") || strings.Contains(ct, "ctx.Done()") || strings.Contains(ct, "context.DeadlineExceeded") || strings.Contains(ct, "context.Canceled")
+				if !ctxCond {
+					return true
+				}
+				for _, mc := range mcs {
+					inside := mc.Pos() >= g.Pos() && mc.End() <= g.End()
+					returnsBefore := false
+					ast.Inspect(g.Body, func(x ast.Node) bool {
+						if _, ok := x.(*ast.ReturnStmt); ok {
+							returnsBefore = true
+						}
+						return true
+					})
+					if (g.End() < mc.Pos() && returnsBefore) || (inside && strings.Contains(ct, "==nil")) {
+						onTimeout = false
+					}
+					if g.Else != nil && mc.Pos() >= g.Else.Pos() && mc.End() <= g.Else.End() {
+						onTimeout = false
+					}
+				}
+				return true
+			})
 			return true
 		})
 		if !found {
-			return false, fmt.Errorf("%s: `if err := b.%s(…); err != nil` not found", d.Name.Name, callee)
+			return false, false, fmt.Errorf("%s: `if err := b.%s(…); err != nil` not found", d.Name.Name, callee)
 		}
-		return marks, nil
+		return marks, onTimeout, nil
 	}
-	workerFail, err := failBranchMarks(fra, "flushWithDataTimePartitioning")
+	workerFail, workerTimeout, err := failBranchMarks(fra, "flushWithDataTimePartitioning")
 	if err != nil {
 		return err
 	}
-	syncFail, err := failBranchMarks(fbl, "flushBufferLockedDataTime")
+	syncFail, syncTimeout, err := failBranchMarks(fbl, "flushBufferLockedDataTime")
 	if err != nil {
 		return err
 	}
@@ -562,8 +632,8 @@ func c07(repo string, out *fg.Out) error {
 	}
 	fmt.Fprintf(&out.Lean, "import Arc.Model.C07\nnamespace Arc.Generated.C07\n")
 	fmt.Fprintf(&out.Lean, "/-- cmd/arc/main.go (maintenance tick, shutdown registrations), internal/shutdown (hooks %s components),\ninternal/ingest/arrow_writer.go (markFlushFailure sites, queue-full return) of the current source -/\n", map[bool]string{true: "before", false: "after"}[hooksFirst])
-	fmt.Fprintf(&out.Lean, "def facts : Arc.C07.Facts :=\n  { tickFlag := %s, tickElse := %s,\n    queueFullSetsFlag := %s, queueFullErrors := %s, queueFullErrorsOnlyNoWal := %s,\n    workerFailSetsFlag := %s, syncFailSetsFlag := %s,\n    shutdown := %s }\n",
-		leanList(tickFlag), leanList(tickElse), b(queueFullSetsFlag), b(queueFullErrors), b(onlyNoWal), b(workerFail), b(syncFail), leanList(shutOrder))
+	fmt.Fprintf(&out.Lean, "def facts : Arc.C07.Facts :=\n  { tickFlag := %s, tickElse := %s,\n    queueFullSetsFlag := %s, queueFullErrors := %s, queueFullErrorsOnlyNoWal := %s,\n    typedQueueFullErrors := %s, typedQueueFullErrorsOnlyNoWal := %s,\n    workerFailSetsFlag := %s, syncFailSetsFlag := %s,\n    workerTimeoutSetsFlag := %s, syncTimeoutSetsFlag := %s,\n    shutdown := %s }\n",
+		leanList(tickFlag), leanList(tickElse), b(queueFullSetsFlag), b(queueFullErrors), b(onlyNoWal), b(typedErrors), b(typedOnlyNoWal), b(workerFail), b(syncFail), b(workerTimeout), b(syncTimeout), leanList(shutOrder))
 	fmt.Fprintf(&out.Lean, "/-- periodic recovery MinFileAge (ns), safeAge = max(floor, mult * MaxBufferAge) -/\ndef minFileAgeNs : Nat := %d\ndef safeAgeMult : Nat := %d\ndef safeAgeFloorNs : Nat := %d\n", minFileAge, mult, floor)
 	fmt.Fprintf(&out.Lean, "def hooksBeforeComponents : Bool := %s\n", b(hooksFirst))
 	fmt.Fprintf(&out.Lean, "/-- ArrowBuffer write call sites in internal/api whose error becomes a non-2xx reply -/\ndef apiWriteCallersChecked : Nat := %d\n", writeCallers)
@@ -583,6 +653,10 @@ func c07(repo string, out *fg.Out) error {
 	out.JSON["queue_full_sets_flag"] = queueFullSetsFlag
 	out.JSON["queue_full_errors"] = queueFullErrors
 	out.JSON["queue_full_errors_only_nowal"] = onlyNoWal
+	out.JSON["typed_queue_full_errors"] = typedErrors
+	out.JSON["typed_queue_full_errors_only_nowal"] = typedOnlyNoWal
+	out.JSON["worker_timeout_sets_flag"] = workerTimeout
+	out.JSON["sync_timeout_sets_flag"] = syncTimeout
 	out.JSON["worker_fail_sets_flag"] = workerFail
 	out.JSON["sync_fail_sets_flag"] = syncFail
 	return nil
